@@ -707,7 +707,9 @@ fn main() {
                             && bh["hlen"].as_u64().unwrap_or(999) <= 232 {
                             unix_closed += 1; // a well-formed AF_UNIX header closed the session (open finding)
                         }
-                        if samples.len() < 4 && (i % 97 == 0 || samples.is_empty()) {
+                        if samples.len() < 4 && behs[i]["segs"].as_array().map(|a| a.len() >= 2).unwrap_or(false)
+                            && behs[i]["c"].as_array().map(|a| !a.is_empty()).unwrap_or(false)
+                            && !samples.iter().any(|s| s["mode"] == behs[i]["mode"]) {
                             let b = &behs[i];
                             samples.push(json!({"mode":b["mode"],"hdr":b["hdr"],"segs":b["segs"],"backend":{"g":b["g"],"c":b["c"]},"closes":b["closes"]}));
                         }
